@@ -515,7 +515,7 @@ func snapshotOf(w *World, items []c08Item) map[string]string {
 func init() {
 	register(&Property{
 		ID: "C08", Level: "exploration",
-		Rule: "scenario = CRS tree with 2-6 assembly files addressing distinct rule lines of one rules file (chains, !@rx), include files, decoys the walk must skip, programs with blocks, stored expressions, definitions, flags, prefixes and includes, plus one cross-file probe: a file that reads a stored expression only another file stores (invalid alone), an unclosed block, a definition / flags / prefix present in one file only; command in {update, compare, compare -o github, format, format --check}. Histories from the same initial disk: the single invocations in walk order (stopping after the first failing file where --all aborts by design), `--all`, the single invocations in 3 (quick) / 8 (thorough) seeded other orders, and `--all` under 2 permuted directory listings (WalkDir seam). Oracles: final bytes of the rules file and of every .ra file agree; exit status of --all non-zero iff a single invocation fails; compare's stdout is the concatenation of the single outputs. Non-trivial = at least two addressable files; distinct = distinct (world, command).",
+		Rule: "scenario = CRS tree with 2-6 assembly files addressing distinct rule lines of one rules file (chains, !@rx), include files, decoys the walk must skip, programs with blocks, stored expressions, definitions, flags, prefixes and includes, (4%: 48 more data files, every command under a limit of 40 open files with the collector off) plus one cross-file probe (also: one command for both shells in two files, a data file that is a symbolic link, a file name with a chain number beyond 255): a file that reads a stored expression only another file stores (invalid alone), an unclosed block, a definition / flags / prefix present in one file only; command in {update, compare, compare -o github, format, format --check}. Histories from the same initial disk: the single invocations in walk order (stopping after the first failing file where --all aborts by design), `--all`, the single invocations in 3 (quick) / 8 (thorough) seeded other orders, and `--all` under 2 permuted directory listings (WalkDir seam). Oracles: final bytes of the rules file and of every .ra file agree; exit status of --all non-zero iff a single invocation fails; compare's stdout is the concatenation of the single outputs. Non-trivial = at least two addressable files; distinct = distinct (world, command).",
 		Gen:  genC08, Eval: evalC08,
 		QuickChecks: 450, ThoroughChecks: 6000, Timeout: 20 * time.Second,
 		Assumptions: []string{
